@@ -121,6 +121,53 @@ impl MioListener {
 //@end
 }
 
+// ===================================================================== socket.rs: mio stream -> tokio stream (C01)
+/// the OS file descriptor behind a stream (ghost identity); the in-place conversions keep it
+impl MioTcpStream { pub uninterp spec fn fd(&self) -> int; }
+impl MioUnixStream { pub uninterp spec fn fd(&self) -> int; }
+pub struct RawFd { pub fd: Ghost<int> }
+pub struct IntoRawFd { }
+impl IntoRawFd {
+    #[verifier::external_body] pub fn into_raw_fd<S: HasFd>(s: S) -> (r: RawFd) ensures r.fd@ == s.spec_fd() { unimplemented!() }
+}
+pub trait HasFd { spec fn spec_fd(&self) -> int; }
+impl HasFd for MioTcpStream { open spec fn spec_fd(&self) -> int { self.fd() } }
+impl HasFd for MioUnixStream { open spec fn spec_fd(&self) -> int { self.fd() } }
+#[verifier::external_body]
+pub struct StdStream { _p: () }
+impl StdStream { pub uninterp spec fn fd(&self) -> int; }
+pub struct FromRawFd { }
+impl FromRawFd {
+    /// unsafe in std (the fd must be open and owned): the fd just taken out of the mio stream is
+    #[verifier::external_body] pub fn from_raw_fd(r: RawFd) -> (s: StdStream) ensures s.fd() == r.fd@ { unimplemented!() }
+}
+#[verifier::external_body]
+pub struct TcpStream { _p: () }
+#[verifier::external_body]
+pub struct UnixStream { _p: () }
+impl TcpStream {
+    pub uninterp spec fn fd(&self) -> int;
+    #[verifier::external_body] pub fn from_std(s: StdStream) -> (r: io::Result<TcpStream>) ensures r matches Ok(t) ==> t.fd() == s.fd() { unimplemented!() }
+}
+impl UnixStream {
+    pub uninterp spec fn fd(&self) -> int;
+    #[verifier::external_body] pub fn from_std(s: StdStream) -> (r: io::Result<UnixStream>) ensures r matches Ok(t) ==> t.fd() == s.fd() { unimplemented!() }
+}
+impl TcpStream {
+//@extract file=actix-server/src/socket.rs item="mod unix_impl / impl FromStream for TcpStream / fn from_mio" ret=r props=C01 name=socket::from_mio_tcp intended_panics
+//@spec
+    requires sock is Tcp,     // a Unix-domain stream here is "a bug in server impl" (the code panics): the builder pairs TCP listeners with TcpStream factories
+    ensures r matches Ok(t) ==> (sock matches MioStream::Tcp(m) && t.fd() == m.fd()),   // [C01] the service gets THE accepted connection (in-place conversion)
+//@end
+}
+impl UnixStream {
+//@extract file=actix-server/src/socket.rs item="mod unix_impl / impl FromStream for UnixStream / fn from_mio" ret=r props=C01 name=socket::from_mio_uds intended_panics
+//@spec
+    requires sock is Uds,
+    ensures r matches Ok(t) ==> (sock matches MioStream::Uds(m) && t.fd() == m.fd()),   // [C01]
+//@end
+}
+
 // ===================================================================== server.rs: signals -> commands
 #[derive(Clone, Copy)]
 //@extract_type file=actix-server/src/signals.rs item="enum SignalKind"
